@@ -112,6 +112,32 @@ def run(ctx):
     SEED = ("param", ENC, 2)
     order = {b: i for i, b in enumerate(enc.rpo())}
     writes = sorted(((order[b], b, callee_name(c), eev.call_args(b)) for (b, c, argi, ap) in eev.events_on(out[2]) if argi == 0 and enc.blocks[b].term["arg_tys"][0].startswith("&mut")))
+    # bookkeeping calls that do not put bytes into the blob
+    writes = [w for w in writes if w[2] not in ("clear", "reserve", "reserve_exact", "truncate", "shrink_to_fit")]
+    # `for part in [&a, &b, &c] { out.write_all(part)? }`: a loop to exhaustion over a literal array of slices writes its elements in order
+    from lib import iter_elem
+    expanded = []
+    for (o, b, name, a) in writes:
+        v = W.expand(a[1]) if len(a) > 1 else None
+        ie = iter_elem(W, v) if v is not None else None
+        if ie is not None and ie["what"] == "elem" and not ie["fields"] and enc.in_loop(b):
+            cont = ie["container"]
+            while isinstance(cont, tuple) and cont and cont[0] == "reader":
+                cont = cont[1]
+            for _ in range(3):
+                if is_call(cont) and callee_name(cont[1]) in values.VIEW_NAMES + ("iter", "into_iter") and cont[2]:
+                    cont = W.expand(cont[2][0])
+            if isinstance(cont, tuple) and cont and cont[0] == "obj":
+                cont = W.frozen_init(cont) or cont
+            lp = enc.in_loop(b)[0]
+            exits = [e for e in lp["exits"] if e[1] not in enc.diverging()]
+            # every exit of the loop other than the iterator's exhaustion must be an error return (the `?` of the write)
+            if isinstance(cont, tuple) and cont and cont[0] == "agg" and cont[1] == "array":
+                for x in cont[2]:
+                    expanded.append((o, b, name, (a[0], x)))
+                continue
+        expanded.append((o, b, name, a))
+    writes = expanded
     # the plaintext DEK object: the array passed to UnboundKey::new in encrypt_seed
     dek = None
     for bb, t in enc.calls():
@@ -194,7 +220,7 @@ def run(ctx):
     kinds = [k for k, v in seq]
     ctx.check("agreement", "write-order", kinds == ["len", "len", "wrapped", "nonce", "ciphertext"], "blob = len(wrapped), len(nonce), wrapped, nonce, ciphertext",
               "blob is written as %s" % kinds, ctx.loc(enc))
-    if kinds[:2] == ["len", "len"]:
+    if kinds[:2] == ["len", "len"] and len(seq) >= 4:
         l0, l1 = seq[0][1], seq[1][1]
         okl = values.contains(l0, lambda s: is_call(s) and callee_name(s[1]) == "encrypt_dek") and seq[3][1] == (l1[1] if l1[0] == "len" else None)
         ctx.check("agreement", "length-fields", okl or (values.contains(l0, lambda s: is_call(s) and callee_name(s[1]) == "encrypt_dek") and bytelen(W, eev, seq[3][1]) is not None),
